@@ -621,10 +621,35 @@ def gen_cases(chk, n):
     return cases
 
 
+def schedule_cases(chk, k, maxd):
+    """exhaustive: every delay vector in {0..maxd}^k for k references spread over a list attribute,
+    a scalar attribute and a second file (scripted provider)"""
+    import itertools
+    M, F = "main" + EXT, "f1" + EXT
+    cases = []
+    for n, ds in enumerate(itertools.product(range(maxd + 1), repeat=k)):
+        def ref(i, text, tgt):
+            return {"text": text, "name": text.replace(" ", ""), "target": tgt, "delay": ds[i]}
+        ti = {"file": M, "cls": "Item", "name": "i1"}
+        tc = {"file": F, "cls": "Core", "name": "c9"}
+        use = [ref(0, "i1", ti), ref(1, "a.b", tc)] + [ref(j, "zz", ti) for j in range(3, k)]
+        files = {M: {"imports": [F], "elems": [{"k": "item", "name": "i1"}, {"k": "use", "refs": use},
+                                               {"k": "one", "ref": ref(2, "p . q", tc)}]},
+                 F: {"imports": [], "elems": [{"k": "wrap", "cores": ["c9"], "extra": None}]}}
+        c = finish_case(chk.rng.split("sched%d" % n), [M, F], files, [M, F], "scripted", False)
+        c["seed_path"] = "sched%d" % n
+        cases.append(c)
+    return cases
+
+
 def run(chk):
     chk.prove([edpos_tr.translate])
-    n = 1200 if chk.thorough else 160
+    n = 1200 if chk.thorough else 140
     cases = load_corpus() + gen_cases(chk, n)
+    if chk.thorough:
+        cases += schedule_cases(chk, 4, 3)        # 256 schedules, incl. the stuck (unresolvable) ones
+    else:
+        cases += schedule_cases(chk, 3, 1)        # 8 schedules
     impl = run_impl(cases)
     vals, errs = core.coq_eval("C34", IMPORTS, [coq_expr(c) for c in cases])
     disagreements, failures = [], []
